@@ -4,7 +4,7 @@
    P1/P2 of DESIGN.md) is not proved; one rule of it is: the {n,m} parser accepts only bounds with
    n <= m <= usize::MAX, reports everything else as a classified error, and never panics.  The rest
    is carried by the exhaustive short-string correspondence against the three-valued grammar. *)
-From RX Require Import Base.Prelude Spec.Syntax Spec.Parse Model.Compiler Proofs.SmallFacts Proofs.BracketFacts.
+From RX Require Import Base.Prelude Spec.Syntax Spec.Parse Model.Compiler Proofs.SmallFacts Proofs.BracketFacts Model.Op Model.Matcher Proofs.PlainPattern Proofs.PlainSpec.
 
 Theorem C07_flags :
   forall (xpath : bool) (s : list N),
@@ -31,5 +31,19 @@ Theorem C07_quantifier_bounds_partial :
     end.
 Proof. exact bracket_spec. Qed.
 
+(* the grammar half on the smallest sub-grammar: a non-empty pattern of ordinary characters is
+   valid for the specification's parser and compiles (to the literal's program) in both dialects *)
+Theorem C07_ordinary_pattern_accepted_partial :
+  forall unopt fl pat,
+    f_literal fl = false -> f_ws fl = false -> forallb ordinary pat = true -> pat <> [] ->
+    spec_parse (f_xpath fl) pat = Valid (RSeq (map RChar pat))
+    /\ compile unopt fl pat
+       = Ok ((if unopt then mk_program_unopt else mk_program) pat (OSeq [OAtom pat; OEnd]) 1%nat
+               (f_case fl) (f_multi fl) false false).
+Proof.
+  intros unopt fl pat H1 H2 H3 H4. split; [apply spec_parse_ordinary; exact H3|apply compile_ordinary; assumption].
+Qed.
+
 Print Assumptions C07_flags.
 Print Assumptions C07_quantifier_bounds_partial.
+Print Assumptions C07_ordinary_pattern_accepted_partial.
